@@ -45,7 +45,8 @@ Single == {[shape |-> "single", body |-> b, alias |-> a] :
              b \in {"plain", "where", "join", "leftjoin", "group", "order-limit", "subquery-from", "subquery-where", "union",
                     "cte", "cte-mixedcase", "cte-only", "cast", "star-qualified", "distinct", "expr", "exists", "case-insensitive", "join3", "having",
                     "cte-chained", "cte-chained-only", "quoted-dotted-column", "exists-correlated", "in-correlated", "scalar-correlated", "exists-correlated-shadow",
-                    "fromless-scalars", "union-fromless-branch", "fromless-subselect-outer-column"},
+                    "fromless-scalars", "union-fromless-branch", "fromless-subselect-outer-column",
+                    "long-in-list-late-column-18", "long-in-list-late-column-70", "many-targets-late-qualified"},
              a \in {"none", "table-alias", "alias-is-integration-name", "column-named-like-integration", "qualified-columns"}}
 
 Cases == IF Family = "federated" THEN Join2 \cup Join3 \cup InSub \cup SetOp \cup SetOp3 \cup Cte \cup CteShadow \cup Api \cup Nested \cup Scalar ELSE Single
